@@ -2,6 +2,11 @@ import Amgcl.Proofs.SolverCG
 import Amgcl.Proofs.SolverBiCGStab
 import Amgcl.Proofs.SolverRichardson
 import Amgcl.Model.SolverPreonly
+import Amgcl.Proofs.SolverGMRES
+import Amgcl.Proofs.SolverFGMRES
+import Amgcl.Proofs.SolverLGMRES
+import Amgcl.Proofs.SolverIDRsTruth
+import Amgcl.Proofs.SolverBiCGStabLTruth
 import Mathlib.Algebra.Order.Field.Rat
 /-!
 # C01 — a reported convergence is truthful: residual, iteration count, solution  (CG, BiCGStab, Richardson, preonly)
@@ -338,5 +343,332 @@ example : (BiCGStab.run { biPrm with maxiter := 0, checkAfter := true, tol := 1/
     (BiCGStab.Work.fresh 2) #[1, 3] #[1, 0]).obs = (.ok (0, 137/640), #[1, 0]) := by decide +kernel
 
 end nonvacuous
+
+/-! ## Second package: GMRES, FGMRES, LGMRES, IDR(s), BiCGStab(L)
+
+`gmres`, `fgmres`, `lgmres`, `idrs` use the norm `|sqrt⟨x,x⟩|` (`nrmA`, prologue `prologueA`); `bicgstabl` uses
+`sqrt|⟨x,x⟩|` (`nrm`, `prologue`) like the first package.
+
+For the three GMRES variants truthfulness is pure control flow: the outer `while(true)` has ONE exit, the `break`
+directly behind `r = f − A x` (left: `r = P(f − A x)`), `norm_r = norm(r)` (gmres.hpp:191-199, fgmres.hpp:177-181,
+lgmres.hpp:236-245).  Hence NO hypothesis on the matrix (not even well-formedness), on `P` (any function, also
+non-linear, for both sides), on the Arnoldi process, on `sqrt`, on the work arrays or — for LGMRES — on the
+augmentation vectors inherited from earlier calls. -/
+section gmresFamily
+variable {K : Type} [Field K] [DecidableEq K] [LT K] [DecidableLT K]
+
+/-- **GMRES reports the true (preconditioned) residual of the `x` it returns**: `res = ‖f − A x‖ / norm_rhs` (right)
+resp. `‖P(f − A x)‖ / norm_rhs` (left). -/
+theorem gmres_truthful (prm : GMRES.Params K) (ip : Vec K → Vec K → K) (sqrt : K → K) (eps : K) (A : CRS K)
+    (P : Vec K → Vec K) (ws : GMRES.Work K) (f x0 : Vec K) (it : Nat) (res : K) (x : Vec K) (w : GMRES.Work K)
+    (h : GMRES.solve prm ip sqrt eps A P ws f x0 = .ok (it, res, x, w)) :
+    res = reported (prologueA prm.nsSearch ip sqrt eps f) (nrmA ip sqrt (BiCGStab.Rf prm.pside P f A x)) := by
+  rw [GMRES.solve, Run.toExcept_ok] at h
+  cases hp : prologueA prm.nsSearch ip sqrt eps f with
+  | trivial n =>
+    rw [GMRES.run_trivial _ _ _ _ _ _ _ _ _ n hp] at h
+    simp only [Prod.mk.injEq, Except.ok.injEq] at h
+    simp [reported, h.1.2]
+  | go nf =>
+    rw [GMRES.run_go _ _ _ _ _ _ _ _ _ nf hp] at h
+    simp only [Prod.mk.injEq, Except.ok.injEq] at h
+    obtain ⟨⟨_, h2⟩, h3, _⟩ := h
+    obtain ⟨_, i2⟩ := GMRES.final_inv prm ip sqrt A P ws f x0 nf
+    simp only [reported]
+    rw [← h2, ← h3, i2]
+
+/-- **FGMRES reports the true residual of the `x` it returns**: `res = ‖f − A x‖ / norm_rhs`. -/
+theorem fgmres_truthful (prm : FGMRES.Params K) (ip : Vec K → Vec K → K) (sqrt : K → K) (eps : K) (A : CRS K)
+    (P : Vec K → Vec K) (ws : FGMRES.Work K) (f x0 : Vec K) (it : Nat) (res : K) (x : Vec K) (w : FGMRES.Work K)
+    (h : FGMRES.solve prm ip sqrt eps A P ws f x0 = .ok (it, res, x, w)) :
+    res = reported (prologueA prm.nsSearch ip sqrt eps f) (nrmA ip sqrt (residual f A x)) := by
+  rw [FGMRES.solve, Run.toExcept_ok] at h
+  cases hp : prologueA prm.nsSearch ip sqrt eps f with
+  | trivial n =>
+    rw [FGMRES.run_trivial _ _ _ _ _ _ _ _ _ n hp] at h
+    simp only [Prod.mk.injEq, Except.ok.injEq] at h
+    simp [reported, h.1.2]
+  | go nf =>
+    rw [FGMRES.run_go _ _ _ _ _ _ _ _ _ nf hp] at h
+    simp only [Prod.mk.injEq, Except.ok.injEq] at h
+    obtain ⟨⟨_, h2⟩, h3, _⟩ := h
+    obtain ⟨_, i2⟩ := FGMRES.final_inv prm ip sqrt A P ws f x0 nf
+    simp only [reported]
+    rw [← h2, ← h3, i2]
+
+/-- **LGMRES reports the true (preconditioned) residual of the `x` it returns** — whatever augmentation vectors the
+object carries from earlier calls (`always_reset` on or off). -/
+theorem lgmres_truthful (prm : LGMRES.Params K) (ip : Vec K → Vec K → K) (sqrt : K → K) (eps : K) (A : CRS K)
+    (P : Vec K → Vec K) (ws : LGMRES.Work K) (f x0 : Vec K) (it : Nat) (res : K) (x : Vec K) (w : LGMRES.Work K)
+    (h : LGMRES.solve prm ip sqrt eps A P ws f x0 = .ok (it, res, x, w)) :
+    res = reported (prologueA prm.nsSearch ip sqrt eps f) (nrmA ip sqrt (BiCGStab.Rf prm.pside P f A x)) := by
+  rw [LGMRES.solve, Run.toExcept_ok] at h
+  cases hp : prologueA prm.nsSearch ip sqrt eps f with
+  | trivial n =>
+    rw [LGMRES.run_trivial _ _ _ _ _ _ _ _ _ n hp] at h
+    simp only [Prod.mk.injEq, Except.ok.injEq] at h
+    simp [reported, h.1.2]
+  | go nf =>
+    rw [LGMRES.run_go _ _ _ _ _ _ _ _ _ nf hp] at h
+    simp only [Prod.mk.injEq, Except.ok.injEq] at h
+    obtain ⟨⟨_, h2⟩, h3, _⟩ := h
+    obtain ⟨_, i2⟩ := LGMRES.final_inv prm ip sqrt A P (LGMRES.reset prm ws) f x0 nf
+    simp only [reported]
+    rw [← h2, ← h3, i2]
+
+/-- the iteration count of GMRES never exceeds the configured maximum (restarts included) -/
+theorem gmres_iter_le_maxiter (prm : GMRES.Params K) (ip : Vec K → Vec K → K) (sqrt : K → K) (eps : K) (A : CRS K)
+    (P : Vec K → Vec K) (ws : GMRES.Work K) (f x0 : Vec K) (it : Nat) (res : K) (x : Vec K) (w : GMRES.Work K)
+    (h : GMRES.solve prm ip sqrt eps A P ws f x0 = .ok (it, res, x, w)) : it ≤ prm.maxiter := by
+  rw [GMRES.solve, Run.toExcept_ok] at h
+  cases hp : prologueA prm.nsSearch ip sqrt eps f with
+  | trivial n =>
+    rw [GMRES.run_trivial _ _ _ _ _ _ _ _ _ n hp] at h
+    simp only [Prod.mk.injEq, Except.ok.injEq] at h
+    omega
+  | go nf =>
+    rw [GMRES.run_go _ _ _ _ _ _ _ _ _ nf hp] at h
+    simp only [Prod.mk.injEq, Except.ok.injEq] at h
+    rw [← h.1.1]
+    exact GMRES.final_iter_le prm ip sqrt A P ws f x0 nf
+
+theorem fgmres_iter_le_maxiter (prm : FGMRES.Params K) (ip : Vec K → Vec K → K) (sqrt : K → K) (eps : K)
+    (A : CRS K) (P : Vec K → Vec K) (ws : FGMRES.Work K) (f x0 : Vec K) (it : Nat) (res : K) (x : Vec K)
+    (w : FGMRES.Work K) (h : FGMRES.solve prm ip sqrt eps A P ws f x0 = .ok (it, res, x, w)) :
+    it ≤ prm.maxiter := by
+  rw [FGMRES.solve, Run.toExcept_ok] at h
+  cases hp : prologueA prm.nsSearch ip sqrt eps f with
+  | trivial n =>
+    rw [FGMRES.run_trivial _ _ _ _ _ _ _ _ _ n hp] at h
+    simp only [Prod.mk.injEq, Except.ok.injEq] at h
+    omega
+  | go nf =>
+    rw [FGMRES.run_go _ _ _ _ _ _ _ _ _ nf hp] at h
+    simp only [Prod.mk.injEq, Except.ok.injEq] at h
+    rw [← h.1.1]
+    exact FGMRES.final_iter_le prm ip sqrt A P ws f x0 nf
+
+theorem lgmres_iter_le_maxiter (prm : LGMRES.Params K) (ip : Vec K → Vec K → K) (sqrt : K → K) (eps : K)
+    (A : CRS K) (P : Vec K → Vec K) (ws : LGMRES.Work K) (f x0 : Vec K) (it : Nat) (res : K) (x : Vec K)
+    (w : LGMRES.Work K) (h : LGMRES.solve prm ip sqrt eps A P ws f x0 = .ok (it, res, x, w)) :
+    it ≤ prm.maxiter := by
+  rw [LGMRES.solve, Run.toExcept_ok] at h
+  cases hp : prologueA prm.nsSearch ip sqrt eps f with
+  | trivial n =>
+    rw [LGMRES.run_trivial _ _ _ _ _ _ _ _ _ n hp] at h
+    simp only [Prod.mk.injEq, Except.ok.injEq] at h
+    omega
+  | go nf =>
+    rw [LGMRES.run_go _ _ _ _ _ _ _ _ _ nf hp] at h
+    simp only [Prod.mk.injEq, Except.ok.injEq] at h
+    rw [← h.1.1]
+    exact LGMRES.final_iter_le prm ip sqrt A P _ f x0 nf
+
+/-- GMRES stops only through its stopping test: on return `norm_r < eps` or `iter ≥ maxiter` holds for the very
+numbers that are reported (the fuel of the modelled loops is never the reason for the exit) -/
+theorem gmres_stops_only_when_done (prm : GMRES.Params K) (ip : Vec K → Vec K → K) (sqrt : K → K) (eps : K)
+    (A : CRS K) (P : Vec K → Vec K) (ws : GMRES.Work K) (f x0 : Vec K) (nf : K)
+    (hp : prologueA prm.nsSearch ip sqrt eps f = .go nf)
+    (it : Nat) (res : K) (x : Vec K) (w : GMRES.Work K)
+    (h : GMRES.solve prm ip sqrt eps A P ws f x0 = .ok (it, res, x, w)) :
+    nrmA ip sqrt (BiCGStab.Rf prm.pside P f A x) < GMRES.epsTol prm nf ∨ prm.maxiter ≤ it := by
+  rw [GMRES.solve, Run.toExcept_ok, GMRES.run_go _ _ _ _ _ _ _ _ _ nf hp] at h
+  simp only [Prod.mk.injEq, Except.ok.injEq] at h
+  obtain ⟨⟨h1, _⟩, h3, _⟩ := h
+  have hs := GMRES.outer_fuel_ok prm ip sqrt A P ws f x0 nf
+  obtain ⟨_, i2⟩ := GMRES.final_inv prm ip sqrt A P ws f x0 nf
+  simp only [GMRES.stop, Bool.or_eq_true, decide_eq_true_eq] at hs
+  rw [i2, h1, h3] at hs
+  exact hs
+
+end gmresFamily
+
+/-! ### IDR(s)
+
+The residual `r` of IDR(s) is updated recursively (`r −= β·G[k]` with `x += β·U[k]`; `r −= ω·t` with `x += ω·v`,
+`t = A v`) and recomputed only with `replacement`; truthfulness therefore needs the invariant `G[i] = A·U[i]` for the
+stored vectors (maintained by the bi-orthogonalisation, which applies the same combination to `G[k]` and `U[k]`)
+and linearity of `A` — for ARBITRARY values of all coefficients (`c`, `β`, `ω`, `α`): no breakdown hypothesis, any
+shadow space `P`, any function `Prec`.  With `smoothing` the reported norm is that of the smoothed residual `r_s` and
+the returned vector is `x_s`; `r_s ← r_s − γ(r_s − r)`, `x_s ← x_s − γ(x_s − x)` is again a paired update. -/
+section idrs
+variable {K : Type} [Field K] [DecidableEq K] [LT K] [DecidableLT K]
+
+/-- **IDR(s) without smoothing reports the true residual of the `x` it returns** (`replacement` on or off).
+(`_partial` only in the sense of the work-package plan: the smoothing case is `idrs_truthful_smoothing` below.) -/
+theorem idrs_truthful_partial (prm : IDRs.Params K) (hsm : prm.smoothing = false) (ip : Vec K → Vec K → K)
+    (sqrt : K → K) (eps : K) (A : CRS K) (hA : A.WF) (hsq : A.nrows = A.ncols) (Prec : Vec K → Vec K)
+    (hP : ∀ v, (Prec v).size = A.ncols) (Pv : FArr (Vec K)) (ws : IDRs.Work K) (f x0 : Vec K)
+    (it : Nat) (res : K) (x : Vec K) (w : IDRs.Work K)
+    (h : IDRs.solve prm ip sqrt eps A Prec Pv ws f x0 = .ok (it, res, x, w)) :
+    res = reported (prologueA prm.nsSearch ip sqrt eps f) (nrmA ip sqrt (residual f A x)) :=
+  IDRs.solve_truthful_partial prm hsm ip sqrt eps A hA hsq Prec hP Pv ws f x0 it res x w h
+
+/-- **IDR(s) reports the true residual of the `x` it returns, with or without smoothing** (initial guess of the
+system's length). -/
+theorem idrs_truthful_smoothing (prm : IDRs.Params K) (ip : Vec K → Vec K → K)
+    (sqrt : K → K) (eps : K) (A : CRS K) (hA : A.WF) (hsq : A.nrows = A.ncols) (Prec : Vec K → Vec K)
+    (hP : ∀ v, (Prec v).size = A.ncols) (Pv : FArr (Vec K)) (ws : IDRs.Work K) (f x0 : Vec K)
+    (hx : x0.size = A.ncols) (it : Nat) (res : K) (x : Vec K) (w : IDRs.Work K)
+    (h : IDRs.solve prm ip sqrt eps A Prec Pv ws f x0 = .ok (it, res, x, w)) :
+    res = reported (prologueA prm.nsSearch ip sqrt eps f) (nrmA ip sqrt (residual f A x)) :=
+  IDRs.solve_truthful_smoothing prm ip sqrt eps A hA hsq Prec hP Pv ws f x0 hx it res x w h
+
+/-- the iteration count of IDR(s) never exceeds `maxiter` (no hypothesis on `A`, `Prec`, `P`, the work arrays).
+Note the code does not count the step in which it converges: `if (res_norm <= eps || ++iter >= maxiter) break;` -/
+theorem idrs_iter_le_maxiter (prm : IDRs.Params K) (ip : Vec K → Vec K → K) (sqrt : K → K) (eps : K) (A : CRS K)
+    (Prec : Vec K → Vec K) (Pv : FArr (Vec K)) (ws : IDRs.Work K) (f x0 : Vec K) (it : Nat) (res : K) (x : Vec K)
+    (w : IDRs.Work K) (h : IDRs.solve prm ip sqrt eps A Prec Pv ws f x0 = .ok (it, res, x, w)) :
+    it ≤ prm.maxiter :=
+  IDRs.solve_iter_le prm ip sqrt eps A Prec Pv ws f x0 it res x w h
+
+end idrs
+
+/-! ### BiCGStab(L)
+
+BiCGStab(L) iterates on the correction: `B` is the (preconditioned) residual of the caller's `x`, `X` the accumulated
+correction in the preconditioned space, `R[0]` the recursively updated `B − A'X` (`A' = A∘P` right, `P∘A` left);
+`x += X` (left) resp. `x += P X` (right) only at the label `done` and in the accurate-update branch.  The invariant
+`B = Rf(x)`, `R[0] = B − A'X`, `R[i+1] = A'R[i]`, `U[i+1] = A'U[i]` holds for ARBITRARY values of `alpha`, `beta` and of
+the polynomial coefficients (nothing about `QR.solve` is used beyond its frame), through the early exit, the
+`delta`-refresh and the `update_x` re-basing.  Because `P` is applied to the SUM `X` at the end, `P` must be linear
+for BOTH sides (`PLin`; every explicit matrix preconditioner is, `PLin_spmv`), and `A` square. -/
+section bicgstabl
+variable {K : Type} [Field K] [DecidableEq K] [LT K] [DecidableLT K]
+
+/-- **BiCGStab(L) reports the true (preconditioned) residual of the `x` it returns** — every `L`, both sides, every
+`delta`/`convex`, all exits.  (Named `_partial` in the work-package plan; the statement proved is the full one, the
+only restriction being linearity of `P` and a square well-formed `A`.) -/
+theorem bicgstabl_truthful_partial (prm : BiCGStabL.Params K) (ip : Vec K → Vec K → K) (sqrt : K → K) (eps c07 : K)
+    (A : CRS K) (P : Vec K → Vec K) (ok : BiCGStab.SideOK prm.pside A P) (hsq : A.nrows = A.ncols)
+    (hlin : PLin A.nrows P) (ws : BiCGStabL.Work K) (f x0 : Vec K) (it : Nat) (res : K) (x : Vec K)
+    (w : BiCGStabL.Work K) (h : BiCGStabL.solve prm ip sqrt eps c07 A P ws f x0 = .ok (it, res, x, w)) :
+    res = reported (prologue prm.nsSearch ip sqrt eps f) (nrm ip sqrt (BiCGStab.Rf prm.pside P f A x)) :=
+  BiCGStabL.solve_truthful prm ip sqrt eps c07 A P ok hsq hlin ws f x0 it res x w h
+
+/-- **`it ≤ maxiter + L − 1`** for BiCGStab(L) (a pass is entered with `iter < maxiter` and adds `L`, the early exit
+adds `j+1 ≤ L`); no hypothesis on `A`, `P`. -/
+theorem bicgstabl_iter_le (prm : BiCGStabL.Params K) (ip : Vec K → Vec K → K) (sqrt : K → K) (eps c07 : K)
+    (A : CRS K) (P : Vec K → Vec K) (ws : BiCGStabL.Work K) (f x0 : Vec K) (it : Nat) (res : K) (x : Vec K)
+    (w : BiCGStabL.Work K) (h : BiCGStabL.solve prm ip sqrt eps c07 A P ws f x0 = .ok (it, res, x, w))
+    (hL : 1 ≤ prm.L) : it ≤ prm.maxiter + prm.L - 1 :=
+  BiCGStabL.solve_iter_le prm ip sqrt eps c07 A P ws f x0 it res x w h hL
+
+end bicgstabl
+
+section gmresOrdered
+variable {K : Type} [Field K] [LinearOrder K] [IsStrictOrderedRing K]
+
+/-- the `nrmA` flavour of `below_tol_means_solved` (for gmres / fgmres / lgmres / idrs) -/
+theorem below_tol_means_solved_A (ns : Bool) (ip : Vec K → Vec K → K) (sqrt : K → K) (eps : K) (heps : 0 < eps)
+    (f R : Vec K) (nf tol res : K) (hp : prologueA ns ip sqrt eps f = .go nf)
+    (htruth : res = reported (prologueA ns ip sqrt eps f) (nrmA ip sqrt R)) (hlt : res < tol) :
+    nrmA ip sqrt R < tol * nf := by
+  rw [hp] at htruth
+  simp only [reported] at htruth
+  exact below_tol_of_div _ _ _ (prologueA_go_pos ns ip sqrt eps heps f nf hp) (htruth ▸ hlt)
+
+theorem gmres_below_tol_means_solved (prm : GMRES.Params K) (ip : Vec K → Vec K → K) (sqrt : K → K) (eps : K)
+    (heps : 0 < eps) (A : CRS K) (P : Vec K → Vec K) (ws : GMRES.Work K) (f x0 : Vec K) (it : Nat) (res : K)
+    (x : Vec K) (w : GMRES.Work K) (nf : K)
+    (h : GMRES.solve prm ip sqrt eps A P ws f x0 = .ok (it, res, x, w))
+    (hp : prologueA prm.nsSearch ip sqrt eps f = .go nf) (hlt : res < prm.tol) :
+    nrmA ip sqrt (BiCGStab.Rf prm.pside P f A x) < prm.tol * nf :=
+  below_tol_means_solved_A prm.nsSearch ip sqrt eps heps f _ nf prm.tol res hp
+    (gmres_truthful prm ip sqrt eps A P ws f x0 it res x w h) hlt
+
+end gmresOrdered
+
+/-! ### non-vacuity (second package): concrete runs over `ℚ` — a non-symmetric 2×2 system, a non-identity matrix
+preconditioner applied from the LEFT, non-zero initial guess, `sqrt := id`; GMRES(2) restarts once (3 iterations),
+FGMRES(1) restarts twice, LGMRES(1,1) uses an augmentation vector in its second cycle -/
+section nonvacuous2
+
+private def gmPrm : GMRES.Params ℚ :=
+  { maxiter := 3, tol := 0, abstol := 0, nsSearch := false, M := 2, pside := .left }
+private def fgPrm : FGMRES.Params ℚ := { maxiter := 3, tol := 0, abstol := 0, nsSearch := false, M := 1 }
+private def lgPrm : LGMRES.Params ℚ :=
+  { maxiter := 3, tol := 0, abstol := 0, nsSearch := false, M := 1, K' := 1, alwaysReset := true, pside := .left }
+
+example : ∃ it res x w, GMRES.solve gmPrm stdIp id 0 A₀ P₀ (GMRES.Work.fresh 2) #[1, 3] #[1, 0]
+    = .ok (it, res, x, w) ∧ it = 3 := by
+  have h : (match GMRES.solve gmPrm stdIp id 0 A₀ P₀ (GMRES.Work.fresh 2) #[1, 3] #[1, 0] with
+      | .ok (it, _, _, _) => decide (it = 3) | _ => false) = true := by decide +kernel
+  split at h
+  · exact ⟨_, _, _, _, ‹_›, of_decide_eq_true h⟩
+  · cases h
+
+example : ∃ it res x w, FGMRES.solve fgPrm stdIp id 0 A₀ P₀ (FGMRES.Work.fresh 2) #[1, 3] #[1, 0]
+    = .ok (it, res, x, w) ∧ it = 3 := by
+  have h : (match FGMRES.solve fgPrm stdIp id 0 A₀ P₀ (FGMRES.Work.fresh 2) #[1, 3] #[1, 0] with
+      | .ok (it, _, _, _) => decide (it = 3) | _ => false) = true := by decide +kernel
+  split at h
+  · exact ⟨_, _, _, _, ‹_›, of_decide_eq_true h⟩
+  · cases h
+
+example : ∃ it res x w, LGMRES.solve lgPrm stdIp id 0 A₀ P₀ (LGMRES.Work.fresh 2) #[1, 3] #[1, 0]
+    = .ok (it, res, x, w) ∧ it = 3 := by
+  have h : (match LGMRES.solve lgPrm stdIp id 0 A₀ P₀ (LGMRES.Work.fresh 2) #[1, 3] #[1, 0] with
+      | .ok (it, _, _, _) => decide (it = 3) | _ => false) = true := by decide +kernel
+  split at h
+  · exact ⟨_, _, _, _, ‹_›, of_decide_eq_true h⟩
+  · cases h
+
+/-- IDR(1) on a non-symmetric 3×3 system, with smoothing and residual replacement: three counted iterations -/
+private def A₁ : CRS ℚ := ⟨3, #[[(0, 2), (1, -1)], [(0, -1), (1, 2), (2, -1)], [(1, -1), (2, 3)]]⟩
+private def idPrm (sm rp : Bool) : IDRs.Params ℚ :=
+  { maxiter := 3, tol := 0, abstol := 0, nsSearch := false, s := 1, omega := 7/10, smoothing := sm, replacement := rp }
+private def Pv₁ : FArr (Vec ℚ) := IDRs.makeP stdIp id 1 ⟨fun _ => #[1, 0, 1]⟩
+
+example : A₁.WF ∧ A₁.nrows = A₁.ncols := by decide
+example : ∃ it res x w, IDRs.solve (idPrm false false) stdIp id 0 A₁ (fun v => vcopy v) Pv₁ (IDRs.Work.fresh 3)
+    #[1, 0, 2] #[0, 0, 0] = .ok (it, res, x, w) ∧ it = 3 := by
+  have h : (match IDRs.solve (idPrm false false) stdIp id 0 A₁ (fun v => vcopy v) Pv₁ (IDRs.Work.fresh 3)
+      #[1, 0, 2] #[0, 0, 0] with
+      | .ok (it, _, _, _) => decide (it = 3) | _ => false) = true := by decide +kernel
+  split at h
+  · exact ⟨_, _, _, _, ‹_›, of_decide_eq_true h⟩
+  · cases h
+example : ∃ it res x w, IDRs.solve (idPrm true true) stdIp id 0 A₁ (fun v => vcopy v) Pv₁ (IDRs.Work.fresh 3)
+    #[1, 0, 2] #[0, 0, 0] = .ok (it, res, x, w) ∧ it = 3 := by
+  have h : (match IDRs.solve (idPrm true true) stdIp id 0 A₁ (fun v => vcopy v) Pv₁ (IDRs.Work.fresh 3)
+      #[1, 0, 2] #[0, 0, 0] with
+      | .ok (it, _, _, _) => decide (it = 3) | _ => false) = true := by decide +kernel
+  split at h
+  · exact ⟨_, _, _, _, ‹_›, of_decide_eq_true h⟩
+  · cases h
+
+/-- BiCGStab(2) with `delta = 1/2` on a non-symmetric 3×3 system with a matrix preconditioner, both sides: the
+hypotheses of `bicgstabl_truthful_partial` hold and the calls return after a full pass (polynomial step through
+`qr.solve`) -/
+private def A₃ : CRS ℚ := ⟨3, #[[(0, 2), (1, -1)], [(0, -3), (1, 4), (2, 1)], [(1, -1), (2, 3)]]⟩
+private def M₃ : CRS ℚ := ⟨3, #[[(0, 1/2)], [(0, 1/8), (1, 1/4)], [(2, 1/3)]]⟩
+private def P₃ : Vec ℚ → Vec ℚ := fun v => spmv 1 M₃ v 0 #[]
+private def blPrm (side : Side) : BiCGStabL.Params ℚ :=
+  { maxiter := 2, tol := 0, abstol := 0, nsSearch := false, L := 2, delta := 1/2, convex := false, pside := side }
+
+example (side : Side) : BiCGStab.SideOK side A₃ P₃ ∧ A₃.nrows = A₃.ncols ∧ PLin A₃.nrows P₃ :=
+  ⟨⟨by decide, fun v => spmv_size' 1 0 M₃ v #[], fun _ => ⟨rfl, PLin_spmv M₃ (by decide) #[]⟩⟩, rfl,
+    PLin_spmv M₃ (by decide) #[]⟩
+
+example : ∃ it res x w, BiCGStabL.solve (blPrm .right) stdIp id 0 (7/10) A₃ P₃ (BiCGStabL.Work.fresh 3)
+    #[1, 3, 2] #[1, 0, 0] = .ok (it, res, x, w) ∧ it = 2 := by
+  have h : (match BiCGStabL.solve (blPrm .right) stdIp id 0 (7/10) A₃ P₃ (BiCGStabL.Work.fresh 3)
+      #[1, 3, 2] #[1, 0, 0] with
+      | .ok (it, _, _, _) => decide (it = 2) | _ => false) = true := by decide +kernel
+  split at h
+  · exact ⟨_, _, _, _, ‹_›, of_decide_eq_true h⟩
+  · cases h
+
+example : ∃ it res x w, BiCGStabL.solve (blPrm .left) stdIp id 0 (7/10) A₃ P₃ (BiCGStabL.Work.fresh 3)
+    #[1, 3, 2] #[1, 0, 0] = .ok (it, res, x, w) ∧ it = 2 := by
+  have h : (match BiCGStabL.solve (blPrm .left) stdIp id 0 (7/10) A₃ P₃ (BiCGStabL.Work.fresh 3)
+      #[1, 3, 2] #[1, 0, 0] with
+      | .ok (it, _, _, _) => decide (it = 2) | _ => false) = true := by decide +kernel
+  split at h
+  · exact ⟨_, _, _, _, ‹_›, of_decide_eq_true h⟩
+  · cases h
+
+end nonvacuous2
 
 end Amgcl.C01
